@@ -15,6 +15,14 @@ def _legs(tier):
     out.append({"name": "images-comp", "driver": "atrb", "env": dict(_OC1, SCHEMA="t_comp"),
                 "gen": [("ATRollback_MC", "ATRollback_Gen_C18P.cfg")],
                 "trace": ("ATRollback_Trace", "ATRollback_Trace.cfg"), "shards": 2})
+    # the plain spellings of the rollback labs (random Style: multi-statement strings, the key listed late in an
+    # INSERT with rows that differ in which values are literals, explicit transactions ...) on the integer key
+    out.append({"name": "images-plain", "driver": "atrb", "env": dict(_OC0, SCHEMA="t_int"),
+                "gen": [("ATRollback_MC", "ATRollback_Gen_C18P.cfg")],
+                "trace": ("ATRollback_Trace", "ATRollback_Trace.cfg"), "shards": 2})
+    out.append({"name": "images-pklate", "driver": "atrb", "env": dict(_OC0, SCHEMA="t_int", STYLE_FORCE="pklate,bound"),
+                "gen": [("ATRollback_MC", "ATRollback_Gen_C18P.cfg")],
+                "trace": ("ATRollback_Trace", "ATRollback_Trace.cfg"), "shards": 2})
     # a table with a secondary UNIQUE index on a nullable column: an upsert reaches an existing row through it
     out.append({"name": "images-uq", "driver": "atrb", "env": dict(_OC1, SCHEMA="t_uq"),
                 "gen": [("ATRollback_MC", "ATRollback_Gen_C18U.cfg")],
